@@ -5,7 +5,8 @@
    the router stamps on dispatched messages).  [pinned] is the rule of the
    pinned tree; [fix_f09], [fix_bind], [fix_nokey], [fix_resume] are the four
    repairs.  Which of them /repo carries is [Corr.C08.code_fx]; the theorems
-   c08_current_code_* at the end are about exactly that variant. *)
+   c08_current_code_* at the end are about exactly that variant
+   (currently: all repairs but fix_bind). *)
 From Coq Require Import List Arith ZArith Bool.
 Import ListNotations.
 From Onet Require Import Base.Corr Net.Tls Net.TlsProofs Corr.C08 Net.TlsCorrProofs.
@@ -281,10 +282,11 @@ Example c08_repaired_link_nonvacuous :
 Proof. exact repaired_link_nonvacuous. Qed.
 Print Assumptions c08_repaired_link_nonvacuous.
 
-(* with the small repair alone (F09; the one proposed as a patch) the property
-   holds against every peer that does not relay an honest holder's proof *)
+(* the variant /repo carries (all repairs but the relay's, F28): the property
+   holds against every peer that does not relay an honest holder's proof
+   (full handshakes; with tickets: c08_current_code_satisfies_property_without_relay) *)
 Theorem c08_f09_repaired_satisfies_property_without_relay : forall holds r s h id msgs,
-  let fx := mkfixes true false true false in
+  let fx := mkfixes true false true true in
   signs_only_with_own_keys holds h ->
   let o := link fx LTls r s h id msgs in
   link_property LTls r s holds h id (out_hs o) (out_disp o) (out_stamp o) (out_crash o).
@@ -352,20 +354,26 @@ Print Assumptions c08_repaired_link_r_satisfies_property.
 
 (* --- the code as it is (Corr.C08.code_fx) ------------------------------------ *)
 
-(* which variant /repo is; edit together with the conf text when a flag flips *)
-Example c08_current_code_variant : code_fx = mkfixes true false true false.
+(* which variant /repo is: F09, F29, C08-N1 repaired, the relay (F28) open;
+   edit together with the conf text when a flag flips *)
+Example c08_current_code_variant : code_fx = mkfixes true false true true.
 Proof. exact current_code_variant. Qed.
 Print Assumptions c08_current_code_variant.
 
-(* the guarantee of the code's variant, with its two exceptions spelled out in
-   [guarantee]: possession up to RELAY (F28), freshness/validity up to RESUMPTION *)
+(* no connection is a resumed session, whatever ticket is offered *)
+Theorem c08_current_code_resumption_closed : forall lv r s t h id msgs,
+  link_r code_fx lv r s t h id msgs = (link code_fx lv r s h id msgs, false).
+Proof. exact current_code_resumption_closed. Qed.
+Print Assumptions c08_current_code_resumption_closed.
+
+(* the guarantee of the code's variant; its one exception, spelled out in
+   [guarantee]: possession up to RELAY (F28).  Freshness and validity are
+   unconditional ([guarantee] at resumed = false). *)
 Theorem c08_current_code_guarantee : forall holds own_tls htls r s t h id msgs,
   (forall k, ~ In k holds -> own_tls (htls k) = false) ->
   presentable code_fx holds own_tls htls h ->
-  ticket_ok holds s t ->
-  guarantee holds r s id (snd (link_r code_fx LTls r s t h id msgs))
-            (effective (snd (link_r code_fx LTls r s t h id msgs)) t h)
-            (fst (link_r code_fx LTls r s t h id msgs)).
+  link_r code_fx LTls r s t h id msgs = (link code_fx LTls r s h id msgs, false) /\
+  guarantee holds r s id false h (link code_fx LTls r s h id msgs).
 Proof. exact current_code_guarantee. Qed.
 Print Assumptions c08_current_code_guarantee.
 
@@ -379,23 +387,32 @@ Theorem c08_current_code_relay_open : forall holds own_tls htls s now n k tk,
 Proof. exact current_code_relay_open. Qed.
 Print Assumptions c08_current_code_relay_open.
 
-Theorem c08_current_code_resumption_open : forall s c0 h id msgs,
-  fix_resume code_fx = false ->
-  link_r code_fx LTls RAccept s (Some (c0, true)) h id msgs = (accepted_conn code_fx s c0 id msgs, true).
-Proof. exact current_code_resumption_open. Qed.
-Print Assumptions c08_current_code_resumption_open.
+(* against peers that do not relay the code's variant satisfies the property itself *)
+Theorem c08_current_code_satisfies_property_without_relay : forall holds r s t h id msgs,
+  signs_only_with_own_keys holds h ->
+  let '(o, resumed) := link_r code_fx LTls r s t h id msgs in
+  link_property LTls r s holds (effective resumed t h) id (out_hs o) (out_disp o) (out_stamp o) (out_crash o).
+Proof. exact current_code_satisfies_property_without_relay. Qed.
+Print Assumptions c08_current_code_satisfies_property_without_relay.
 
-Theorem c08_current_code_resumption_closed : forall lv r s t h id msgs,
-  fix_resume code_fx = true ->
-  link_r code_fx lv r s t h id msgs = (link code_fx lv r s h id msgs, false).
-Proof. exact current_code_resumption_closed. Qed.
-Print Assumptions c08_current_code_resumption_closed.
+(* the variant /repo carried BEFORE the C08-N1 repair (tickets on): a ticket alone
+   was served -- regression witness of that repair *)
+Theorem c08_previous_variant_resumption_refuted :
+  let fx := mkfixes true false true false in
+  let t := Some (earlier_cert 2 0, true) in
+  let h := Hello [] 0 in
+  let '(o, resumed) := link_r fx LTls RAccept Ed25519 t h IdMatch 2 in
+  resumed = true /\ o = mkout true 2 [2; 2] false /\
+  prop_check LTls RAccept Ed25519 [2; 3] (effective resumed t h) IdMatch
+             (out_hs o) (out_disp o) (out_stamp o) (out_crash o) = [2].
+Proof. exact previous_variant_resumption_refuted. Qed.
+Print Assumptions c08_previous_variant_resumption_refuted.
 
 (* independence of the verifier's clauses for the rule /repo carries (F09
    repaired): on the dialling side "CN decodes" (6) is now implied by the
    expected-key clause (4); all others remain independent, on both sides *)
 Theorem c08_each_check_independent_f09_repaired :
-  let fx := mkfixes true false true false in
+  let fx := mkfixes true false true true in
   forall i c, nth_error independence_witnesses i = Some c ->
     (i <> 4 -> fails_only i (clause_list fx Ed25519 0 0 None c) = true) /\
     (i <> 6 -> fails_only i (clause_list fx Ed25519 0 0 (Some 2) c) = true) /\
